@@ -27,7 +27,7 @@ func vpGetFsinfo(env *vpEnv, h uint64) vpFsinfo {
 // vpTransferEnv: a server whose TransferSize is any positive int, set at construction or at run time.
 func vpTransferEnv() (*vpEnv, int) {
 	ts := vpInt("transfersize")
-	vpAssume(vpAnd(ts > 0, ts <= 1<<31))
+	vpAssume(ts > 0) // every positive int, also above 2^32
 	fs := vpNewFS()
 	fs.addDir("/d")
 	n := fs.addFile("/d/x", 0)
